@@ -295,6 +295,17 @@ fn vis_str(tcx: TyCtxt<'_>, did: DefId) -> String {
 fn dump_body<'tcx>(tcx: TyCtxt<'tcx>, did: DefId, out: &mut String) {
     let body: &Body<'tcx> = tcx.optimized_mir(did);
     let name = tcx.def_path_str(did);
+    dump_body_as(tcx, did, body, name, out);
+    // the promoted constants of the body (e.g. the `Some(&b'#')` of `x == Some(&b'#')`, the `"lit"` of `s == "lit"`): tiny bodies
+    // named `<fn>::promoted[i]`, so that the analyses can evaluate a constant operand that refers to them
+    for (i, pb) in tcx.promoted_mir(did).iter_enumerated() {
+        out.push_str(",\n");
+        let pname = format!("{}::promoted[{}]", tcx.def_path_str(did), i.as_usize());
+        dump_body_as(tcx, did, pb, pname, out);
+    }
+}
+
+fn dump_body_as<'tcx>(tcx: TyCtxt<'tcx>, did: DefId, body: &Body<'tcx>, name: String, out: &mut String) {
     let span = tcx.def_span(did);
     let (file, line) = loc(tcx, span);
     let ret_ty = format!("{:?}", body.local_decls[mir::RETURN_PLACE].ty);
